@@ -54,7 +54,7 @@ class Target:
         with self.lock:
             self.calls.append((kind, arg, threading.get_ident()))
 
-    async def coro_value(self, arg):
+    async def coro_value(self, arg, **kw):
         self._rec("coro_value", arg)
         try:
             await asyncio.sleep(0)
@@ -62,12 +62,12 @@ class Target:
         finally:
             self.finished.add(("coro_value", arg))
 
-    async def coro_raise(self, arg):
+    async def coro_raise(self, arg, **kw):
         self._rec("coro_raise", arg)
         self.finished.add(("coro_raise", arg))
         raise Boom(arg)
 
-    async def coro_raise_base(self, arg):
+    async def coro_raise_base(self, arg, **kw):
         self._rec("coro_raise_base", arg)
         try:
             await asyncio.sleep(0)
@@ -75,19 +75,19 @@ class Target:
             self.finished.add(("coro_raise_base", arg))
         raise Fatal(arg)
 
-    async def coro_cancelled(self, arg):
+    async def coro_cancelled(self, arg, **kw):
         self._rec("coro_cancelled", arg)
         self.finished.add(("coro_cancelled", arg))
         raise asyncio.CancelledError()
 
-    def plain_none(self, arg):
+    def plain_none(self, arg, **kw):
         self._rec("plain_none", arg)
 
-    def plain_value(self, arg):
+    def plain_value(self, arg, **kw):
         self._rec("plain_value", arg)
         return arg
 
-    def plain_raise(self, arg):
+    def plain_raise(self, arg, **kw):
         self._rec("plain_raise", arg)
         raise Boom(arg)
 
@@ -127,7 +127,9 @@ async def drive_calls(proxy, calls, out, caller, await_results=True, pre=None, w
     me = threading.get_ident()
     futs = []
     kinds = {c[0]: (c[1], c[2]) for c in calls}
-    for cid, kind, arg, lookup in calls:
+    started_check = []
+    for cid, kind, arg, lookup, *rest in calls:
+        kwname = rest[0] if rest else None
         t0 = time.monotonic()
         try:
             if kind == "attr":
@@ -138,7 +140,8 @@ async def drive_calls(proxy, calls, out, caller, await_results=True, pre=None, w
                     out[cid] = ("TypeError", None, me)
                 continue
             fn = pre[lookup][kind] if (pre and lookup in pre) else getattr(proxy, kind)
-            res = fn(arg)
+            # some callers pass keyword arguments, with names the proxy's own plumbing might also use
+            res = fn(arg, **{kwname: cid}) if kwname else fn(arg)
         except Exception as ex:
             out[cid] = ("call-raised", repr(ex), me)
             continue
@@ -147,6 +150,18 @@ async def drive_calls(proxy, calls, out, caller, await_results=True, pre=None, w
             futs.append((cid, res))
         else:
             out[cid] = ("returned", res, me, dt)
+    if world is not None and futs and caller != "owner":
+        # a coroutine call is carried out on the owner's loop when it is MADE, whether or not the caller awaits the handle
+        # at once: after two round trips through the owner's loop every body has at least begun
+        try:
+            for _ in range(2):
+                await asyncio.wait_for(asyncio.wrap_future(asyncio.run_coroutine_threadsafe(_ident(), world["owner_loop"])), 5)
+            begun = {(k_, a_) for k_, a_, _ in world["target"].calls}
+            for cid, f in futs:
+                if kinds[cid] not in begun:
+                    out[("not-started", cid)] = kinds[cid]
+        except asyncio.TimeoutError:
+            pass
     if not await_results:
         # owner loop stopped: such a future can never complete; do not wait for it
         await asyncio.sleep(0.05)
@@ -242,7 +257,7 @@ async def run_script(plan, r: Result):
                 lookup = call_[3] if len(call_) > 3 else "call"
                 if caller == "owner" and state != "running":
                     caller = "main"
-                by_caller[caller].append((cid, kind, arg, lookup))
+                by_caller[caller].append((cid, kind, arg, lookup, call_[4] if len(call_) > 4 else None))
                 if lookup != "call" and lookup != caller:
                     pass
                 issued.append((cid, kind, caller, arg))
@@ -271,6 +286,11 @@ async def run_script(plan, r: Result):
             execd = {}
             for kind, arg, tid in executed:
                 execd[(kind, arg)] = execd.get((kind, arg), 0) + 1
+            late_start = [k_ for k_ in out if isinstance(k_, tuple) and k_[0] == "not-started"]
+            if late_start:
+                r.bad("C20:coroutine-call-not-carried-out-until-awaited", f"{out[late_start[0]]}: made through the proxy from another loop, "
+                      f"not begun on the owner's loop after two round trips through it (the caller had not awaited the handle yet)")
+                return crossed
             for c, kind, caller, arg in issued:
                 got = out.get(c)
                 cross = caller != "owner"
@@ -613,7 +633,8 @@ def replay(plan) -> Result:
 
 
 call = st.tuples(st.sampled_from(KINDS + ["coro_value", "plain_none"]), st.sampled_from(["main", "main", "second", "owner"]), st.integers(0, 10**6),
-                 st.sampled_from(["call", "call", "call", "main", "owner"])).map(list)
+                 st.sampled_from(["call", "call", "call", "main", "owner"]),
+                 st.sampled_from([None, None, None, "name", "func", "call", "loop", "args", "timeout"])).map(list)
 
 
 @st.composite
